@@ -1,11 +1,25 @@
 from engine import Query
 import os
 META = {
- 'functions': ['StringUtils::EscapeHTMLSpecialChars<Stream,Char> (StringUtils.hpp:205-290)',
+ 'functions': ['StringUtils::EscapeHTMLSpecialChars<Stream,Char> (StringUtils.hpp:205-290), instantiated on FixedStream<Char,6L+1> and on the '
+               'harness observer streams LangStream / CountStream / CmpStream (harness/C03_escape_html.cpp)',
                'StringUtils::IsEqual (StringUtils.hpp:151-162)', 'HTMLSpecialChars_T<Char,1|2|4> tables (StringUtils.hpp:292-353)'],
- 'bounds': '',
- 'outside': '',
- 'assumptions': [],
+ 'bounds': 'every string of exactly L code units, L concrete per query, contents symbolic over ALL code-unit values, char / char16_t / char32_t. '
+           'Observer harnesses (output language = no < > " \' anywhere and every & starts one of the five entities; decode(out) == decode(in); '
+           'L <= |out| <= 6L; reads inside [str, str+L)): L = 0..6 quick, 0..8 thorough, three widths. '
+           'FixedStream harnesses (symbolic output index, reference decoder on both sides, overflow flag false with CAP = 6L+1, one-unit '
+           'destination prefix preserved): L = 0..4 quick (char only), 0..5 thorough (three widths). '
+           'Idempotence: directly (escape twice, FixedStream then lockstep comparison) for L = 0..1 quick / 0..2 thorough; and as the lemma '
+           '"every word t of the output language with |t| = M is a fixed point of the escaper" for M = 0..8 quick / 0..12 thorough, which with the '
+           'language clause gives escape(escape(s)) == escape(s) for every s (|s| <= 6/8) whose escaped form has at most M units.',
+ 'outside': 'strings longer than 6 (quick) / 8 (thorough) units (look-ahead of the escaper is 6 units: one & against the end of the buffer and against one '
+            'neighbouring entity is inside, three or more interacting entities are not); idempotence for strings whose escaped form is longer than '
+            '8 / 12 units; the symbolic-index FixedStream formulation beyond L = 4 / 5; wchar_t instantiations; QENTEM_AUTO_ESCAPE_HTML=0; '
+            'the routing clauses of C03 ({var:} / {raw:} / {svar:} reach the escaper or not) are a separate part of C03.',
+ 'assumptions': ['FixedStream stand-in for the StringStream_T template parameter (group A harnesses)',
+                 'observer streams (group B): the clauses are stated on the sequence of units handed to Stream::Write / operator+=; the escaper '
+                 'never reads the stream back, so any appending stream holds exactly that sequence after whatever it held before',
+                 'decode = one left-to-right pass that replaces exactly the five entities &amp; &lt; &gt; &quot; &apos; (case-sensitive, with semicolon)'],
 }
 WIDTHS = ('char', 'char16_t', 'char32_t')
 H = 'C03_escape_html.cpp'
